@@ -34,9 +34,9 @@ def gen_matrices(rng, quick):
     if not quick:
         for perm in itertools.permutations([9, 1, 5, 3, 7]):
             out.append(("diag-perm", np.diag(np.array(perm, dtype=float))))
-    n_rand = 60 if quick else 1500
+    n_rand = 60 if quick else 400
     for i in range(n_rand):
-        n = int(rng.integers(2, 9 if quick else 25))
+        n = int(rng.integers(2, 9 if quick else 16))
         kind = ["psd", "psd", "rankdef", "indef", "block"][i % 5]
         q, _ = np.linalg.qr(rng.normal(size=(n, n)))
         lam = np.sort(rng.uniform(0.05, 1.0, size=n))[::-1] * (1 + np.arange(n)[::-1])
@@ -62,8 +62,9 @@ def gen_sels(rng, n, quick):
     sels = [None] + list(range(1, n + 1))
     fr = [0.5, 0.75, 0.8, 0.95, 0.999] + [float(np.round(rng.uniform(0.05, 0.99), 3)) for _ in range(2)]
     sels += fr
-    if quick and len(sels) > 6 and n > 4:
-        idx = sorted(set([0, 1, len(sels) - 1] + list(rng.choice(len(sels), 4, replace=False))))
+    keep = 4 if quick else 9
+    if len(sels) > keep + 2 and n > 4:
+        idx = sorted(set([0, 1, len(sels) - 1] + list(rng.choice(len(sels), keep, replace=False))))
         sels = [sels[i] for i in idx]
     return sels
 
@@ -268,7 +269,7 @@ def api_level(rep, rng, quick):
     from FDApy.representation.functional_data import MultivariateFunctionalData
     run = C.CoqRun("C01", IMPORTS)
     cases = []
-    n_data = 10 if quick else 80
+    n_data = 10 if quick else 40
     for i in range(n_data):
         n = int(rng.integers(4, 9 if quick else 20))
         m = int(rng.integers(5, 10 if quick else 30))
@@ -385,7 +386,7 @@ def replay_case(rep, rp):
         print("replay of API-level cases: re-run ./check C01 (deterministic under VERIF_SEED)")
 
 
-RULE = ("helper level: every permutation of 3-5 element spectra on a diagonal + random PSD / rank-deficient / "
+RULE = ("helper level: every permutation of 3-5 element spectra on a diagonal, exact-tie spectra, random PSD / rank-deficient / "
         "slightly indefinite / block matrices x n_components in {None, 1..n, fractions}; API level: UFPCA and MFPCA, "
         "both methods, uniform / non-uniform / day-of-year grids, smooth and rough curves. A case is non-trivial "
         "when the matrix has >= 2 eigenvalues; distinct = distinct (matrix, selection).")
